@@ -1,6 +1,6 @@
 ---- MODULE MC_AsyncRef ----
 EXTENDS AsyncRef
-KAll == {"coro", "gen", "plain"}
+KAll == {"coro", "gen", "plain", "same"}
 KBad == {"coro", "bad", "plain"}
-KCoro == {"coro", "plain"}
+KCoro == {"coro", "plain", "same"}
 ====
